@@ -28,6 +28,7 @@ class Inst:
     construct: str = ""       # normalised text of the offending / deciding construct
     idiom: str = ""           # which accepted idiom matched (ok instances)
     analysis: str = ""        # A1..A10 / M0
+    reach: tuple = ()         # qualified functions: a dependent property inherits this instance if its closure reaches any of them
 
     def fid(self) -> str:
         """Finding identity: rule + key + normalised construct (never a line)."""
